@@ -139,7 +139,7 @@ def base_namespace():
         "iff": lambda a, b: bool(a) == bool(b), "ite": lambda c, a, b: a if c else b,
         "eqr": lambda a, b: _cmp("==", a, b), "ler": lambda a, b: _cmp("<=", a, b), "ltr": lambda a, b: _cmp("<", a, b),
         "isnone": lambda a: a is None, "sin": math.sin, "cos": math.cos, "asin": math.asin, "acos": math.acos,
-        "atan2": math.atan2, "sqrt": math.sqrt, "abs": abs, "min": min, "max": max, "len": len,
+        "atan2": math.atan2, "sqrt": math.sqrt, "deg2rad": math.radians, "rad2deg": math.degrees, "abs": abs, "min": min, "max": max, "len": len,
         "fmod": lambda a, b: float(np.mod(a, b)), "pi": math.pi, "FILL": FILL, "INT_MAX": 2 ** 63 - 1, "INT_MIN": FILL,
         "shape": lambda a: tuple(np.shape(a)), "__cmp": _cmp, "np": np,
         "is_arr": lambda a: isinstance(a, np.ndarray), "same_object": lambda a, b: a is b,
